@@ -381,21 +381,10 @@ func expectWorktreeReport(sn *sandbox.Snap) (*wtExpect, bool) {
 		case on && gitfmt.BlobID(b) != id:
 			e.Modified[p] = true
 		case on:
-		case dirs[p]:
-			e.DontCare[p] = true // a directory took the file's place
 		default:
-			anc := false
-			for d := p; strings.Contains(d, "/"); {
-				d = d[:strings.LastIndex(d, "/")]
-				if _, isFile := wt[d]; isFile {
-					anc = true
-				}
-			}
-			if anc {
-				e.DontCare[p] = true // a file took a parent directory's place
-			} else {
-				e.Deleted[p] = true
-			}
+			// missing from the working tree as a file: gone, a directory in its place, or a parent replaced by a file
+			_ = dirs
+			e.Deleted[p] = true
 		}
 	}
 	for p := range wt {
@@ -580,11 +569,12 @@ func runC13(c *core.Ctx) {
 	n := c.Pick(500, 4000)
 	c.RunHistories(n, Registry["C13"].Mons, func(w *core.World) {
 		wts := map[string]int{
-			"edit-new": 12, "edit-copy": 2, "edit-copydir": 1, "edit-mod": 10, "edit-mod-samesize": 5, "edit-rm": 6, "edit-rmdir": 3, "edit-same": 2, "edit-touch": 2,
+			"edit-new": 12, "edit-copy": 2, "edit-copydir": 1, "edit-swap": 3, "edit-mod": 10, "edit-mod-samesize": 5, "edit-rm": 6, "edit-rmdir": 3, "edit-same": 2, "edit-touch": 2,
 			"add": 12, "rm": 3, "commit": 3, "status": 26, "restore": 2, "reset": 1, "add-all": 1,
 		}
 		k := NewWalker(w, gen.NameOpts{Space: true, NonASCII: w.Hist%3 == 0, Meta: w.Hist%4 == 0, MaxDepth: 4, N: 7}, wts)
 		k.Hostile = 3
+		k.Swap = w.Hist%3 == 1 // file <-> directory replacements in a third of the histories
 		k.Init()
 		if w.Hist%2 == 0 {
 			writeIgnoreScenario(k)
